@@ -347,3 +347,18 @@ pub fn handle_dbgstates(toks: &[&str]) -> String {
     let (lines, _, _) = run_child("dbgstates", toks, 20000);
     lines.iter().filter_map(|l| l.strip_prefix("D ")).collect::<Vec<_>>().join(",")
 }
+
+// run a library-level operation in a child process (it may call process::exit or read stdin); the child prints "R <result>"
+pub fn in_child(mode: &str, toks: &[&str]) -> String {
+    let (lines, code, timed_out) = run_child(mode, toks, 20000);
+    for l in &lines {
+        if let Some(r) = l.strip_prefix("R ") {
+            return r.to_string();
+        }
+    }
+    if timed_out {
+        "child:timeout".to_string()
+    } else {
+        format!("child:exit{}", code.map(|c| c.to_string()).unwrap_or_else(|| "signal".to_string()))
+    }
+}
